@@ -49,6 +49,13 @@ func plan(prop, tier string) []Part {
 			{Name: "mixed", N: q(tier, 600, 12000), Chunk: 40, Procs: []int{2, 16, 4, 1}, Timeout: to},
 			{Name: "nq", N: q(tier, 300, 6000), Chunk: 40, Procs: []int{2, 16, 4, 1}, Timeout: to},
 		}
+	case "C10":
+		return []Part{
+			{Name: "lin", N: q(tier, 600, 12000), Chunk: 50, Procs: []int{2, 16, 4, 1}, Timeout: to},
+			{Name: "race", N: q(tier, 240, 6000), Chunk: 20, Race: true, Procs: []int{4, 16, 2}, Timeout: 20 * time.Minute},
+			{Name: "race-nq", N: q(tier, 80, 2000), Chunk: 20, Race: true, Procs: []int{4, 16}, Timeout: 20 * time.Minute},
+			{Name: "race-err", N: q(tier, 80, 2000), Chunk: 20, Race: true, Procs: []int{4, 16}, Timeout: 20 * time.Minute},
+		}
 	case "C04":
 		return []Part{
 			{Name: "mem", N: q(tier, 500, 10000), Chunk: 40, Procs: []int{2, 16, 4, 1}, Timeout: to},
